@@ -230,8 +230,18 @@ def in_k06b_class(pieces, idx):
 
 def run_histories(ctx, histories, label, stats, known):
     drv = C.driver_path("c06driver")
-    steel = "\n".join("\n".join(" ".join(to_steel(f) for f in p) for p in h) + "\nreset" for h in histories) + "\n"
-    rrc, rout, rerr = C.run_bin([C.bin_path("c06"), "hist"], steel, timeout=1200)
+    # One harness process serves at most 24 histories (= 24 engines), in parallel processes: an engine never gives
+    # its JIT code memory back, and after ~160 engines in one process the next JIT compilation panics ("unable to make
+    # memory readable+executable") - a resource leak of the engine (reported under C07), not a C06 matter.
+    def run_batch(batch):
+        steel = "\n".join("\n".join(" ".join(to_steel(f) for f in p) for p in h) + "\nreset" for h in batch) + "\n"
+        return C.run_bin([C.bin_path("c06"), "hist"], steel, timeout=1200)
+
+    batches = [histories[i:i + 24] for i in range(0, len(histories), 24)]
+    res = C.pool_map(run_batch, batches) if len(batches) > 1 else [run_batch(b) for b in batches]
+    rrc = max([r[0] for r in res] + [0], key=abs)
+    rout = "".join(r[1] for r in res)
+    rerr = "".join(r[2][-800:] for r in res if r[0] != 0)
     rh = C.split_on(rout.splitlines(), "reset")
     inits = []
     for chunk in rh:
